@@ -31,6 +31,9 @@ Decided (structural necessary conditions of the over-approximation):
  R8  a DO WHILE condition is read before anything in the body runs: its symbols
      enter ``uses`` before the body is visited (not ``condition - defines``
      afterwards: the condition is evaluated on entry, also for zero iterations).
+ R9  every subscript on the left-hand side is a read: ``_symbols_from_lhs_expr``
+     takes the uses from the subscripts of the assigned variable *and of its
+     parents* (``t(i)%v(j) = ..`` reads ``i`` and ``j``).
 Not decided: aliasing, array sections, interprocedural effects.
 """
 import ast
@@ -446,6 +449,23 @@ def run_r78(ctx, A):
         (ctx.judge('R7', f'{name} applies the helper to the raw expression') if not bad else
          ctx.violation('R7', f'DataflowAnalysisAttacher.{name}:query-exclusion-on-stripped-symbols', f'{A.module.relpath}:{mem.node.lineno}',
                        f'{name} applies the query exclusion to `{ast.unparse(bad[0])}`, i.e. after the subscripts were stripped'))
+    # ---- R9
+    ctx.rule('R9', '_symbols_from_lhs_expr: uses come from the dimensions of the variable and of its parents')
+    lh = A.function('_symbols_from_lhs_expr')
+    if lh is None:
+        raise AnalysisError('DataflowAnalysisAttacher._symbols_from_lhs_expr vanished')
+    txt = ast.unparse(lh.node)
+    reads_dims = 'dimensions' in txt
+    reads_parents = any(isinstance(a_, ast.Attribute) and a_.attr in ('parents', 'parent') for a_ in ast.walk(lh.node)) or \
+        any(isinstance(c_, ast.Call) and isinstance(c_.func, ast.Name) and c_.func.id == 'getattr' and len(c_.args) >= 2
+            and isinstance(c_.args[1], ast.Constant) and c_.args[1].value in ('parents', 'parent') for c_ in ast.walk(lh.node)) or \
+        'FindVariables' in txt
+    if reads_dims and reads_parents:
+        ctx.judge('R9', 'lhs subscripts of the whole parent chain are uses')
+    else:
+        ctx.violation('R9', 'DataflowAnalysisAttacher._symbols_from_lhs_expr:parent-subscripts', lh.where,
+                      'the uses of a left-hand side are taken from the subscripts of the last component only: in t(i)%v(j) = 1. the index i '
+                      'of the parent is read but missing from uses_symbols')
     # ---- R8
     wl = A.function('visit_WhileLoop')
     if wl is None:
@@ -468,6 +488,8 @@ def run_r78(ctx, A):
 
 
 MUTANTS = [
+    Mutant('lhs-last-component-only', FILE, "        dimensions = tuple(\n            d for e in (*getattr(expr, 'parents', ()), expr) for d in getattr(e, 'dimensions', None) or ()\n        )\n        uses = cls._symbols_from_expr(dimensions)",
+           "        uses = cls._symbols_from_expr(getattr(expr, 'dimensions', ()))", expect=('R9', 'parent-subscripts')),
     Mutant('while-condition-after-body', FILE,
            "        uses = self._symbols_from_expr(o.condition)\n        body, defines, uses = self._visit_body(o.body, live=live, uses=uses, **kwargs)\n        o._update(body=body)\n        return self.visit_Node(o, live_symbols=live, defines_symbols=defines, uses_symbols=uses, **kwargs)\n\n    def visit_Conditional",
            "        body, defines, uses = self._visit_body(o.body, live=live, **kwargs)\n        uses |= self._symbols_from_expr(o.condition) - defines\n        o._update(body=body)\n        return self.visit_Node(o, live_symbols=live, defines_symbols=defines, uses_symbols=uses, **kwargs)\n\n    def visit_Conditional",
